@@ -1,17 +1,24 @@
 (* C15, concurrent half: which lock each critical section of MemIdm.crun takes, the traced run used by
-   the tie with the instrumented code, and the one place where MemIdm is NOT linearizable.
+   the tie with the instrumented code, and LINEARIZABILITY of MemIdm.
 
    Locks: 0 = grpMu, 1 = usrMu.  Every call is one section under one lock, except AddUser: section 1
-   looks the group up under grpMu.RLock (LookupGroup), section 2 re-checks the name and inserts under
-   usrMu.Lock.  No lock is held between two sections, so every section is always enabled: a schedule
-   element that names a finished thread is a stutter, exactly as in the harness. *)
+   takes grpMu.RLock and looks the group up, section 2 - grpMu still held for reading - re-checks the
+   name and inserts under usrMu.Lock.  A section that needs grpMu for writing is blocked while some
+   thread is between the two sections of an AddUser (MemIdm.blocked); a schedule element that names a
+   blocked or finished thread is a stutter, exactly as in the harness.
+
+   [crun_linearizable]: every call takes effect atomically at its LAST section: the calls, in the order
+   in which they complete, run one after the other from the same initial state give the same final
+   state and the same results.  (Before the repair of AddUser - group looked up under grpMu, lock
+   released, user inserted under usrMu - this was false: a DelGroup of the group and a look-up of the
+   user could run in between; that witness is now a regression case of the check.) *)
 From Avfs Require Import Base MemIdm MemIdmProofs.
 Set Implicit Arguments.
 
 (* the lock (id, write mode) of the next section of a thread *)
 Definition sec_lock (t : cthread) : option (nat * bool) :=
   match t_pend t with
-  | PAddUser _ _ => Some (1, true)
+  | PAddUser _ _ _ => Some (1, true)
   | PNone =>
       match t_todo t with
       | [] => None
@@ -32,10 +39,11 @@ Definition cstep_traced (st : (idm * list cthread) * list cevent) (i : nat) : (i
   match nth_error (snd (fst st)) i with
   | None => st
   | Some t =>
-      match sec_lock t with
-      | None => st
-      | Some (l, w) => (cstep (fst st) i, snd st ++ [(i, call_idx t, l, w)])
-      end
+      if blocked (snd (fst st)) t then st
+      else match sec_lock t with
+           | None => st
+           | Some (l, w) => (cstep (fst st) i, snd st ++ [(i, call_idx t, l, w)])
+           end
   end.
 
 Definition crun_traced (st : idm * list cthread) (sched : list nat) : (idm * list cthread) * list cevent :=
@@ -45,7 +53,8 @@ Definition crun_traced (st : idm * list cthread) (sched : list nat) : (idm * lis
 Lemma cstep_finished st i t :
   nth_error (snd st) i = Some t -> sec_lock t = None -> cstep st i = st.
 Proof.
-  intros Hn Hs. unfold cstep. rewrite Hn. unfold sec_lock in Hs. unfold thread_step.
+  intros Hn Hs. unfold cstep. rewrite Hn. destruct (blocked (snd st) t); [reflexivity|].
+  unfold sec_lock in Hs. unfold thread_step.
   destruct (t_pend t); [|discriminate]. destruct (t_todo t) as [|[] ?]; try discriminate.
   cbn. destruct st as [s ths]. cbn in *. f_equal.
   clear Hs. revert i Hn. induction ths as [|a l IH]; intros [|i] Hn; cbn in *; try discriminate.
@@ -61,9 +70,11 @@ Proof.
   induction sched as [|i s IH]; intros st ev; cbn [fold_left crun]; [reflexivity|].
   unfold crun in *. cbn [fold_left]. unfold cstep_traced at 2. cbn [fst snd].
   destruct (nth_error (snd st) i) as [t|] eqn:En.
-  - destruct (sec_lock t) as [[l w]|] eqn:Es.
-    + apply IH.
-    + rewrite (cstep_finished st i En Es). apply IH.
+  - destruct (blocked (snd st) t) eqn:Eb.
+    + assert (E : cstep st i = st) by (unfold cstep; rewrite En, Eb; reflexivity). rewrite E. apply IH.
+    + destruct (sec_lock t) as [[l w]|] eqn:Es.
+      * apply IH.
+      * rewrite (cstep_finished st i En Es). apply IH.
   - assert (E : cstep st i = st) by (unfold cstep; rewrite En; reflexivity). rewrite E. apply IH.
 Qed.
 
@@ -129,30 +140,197 @@ Definition idm_lin_ok (s0 : idm) (progs : list (list iop)) (st : idm * list cthr
   existsb (fun o => list_eqb (list_eqb ires_eqb) (outs (fold_left run_one_call' o (s0, mk_threads progs))) (outs st))
           (all_orders (S total) (map (@length _) progs)).
 
-(* ---- REFUTED: AddUser is not atomic across its two locks ------------------------------------------------------------ *)
+(* ---- the former counter-example ------------------------------------------------------------------------------------------ *)
 Definition w_root : str := [114; 111; 111; 116]%N.
 Definition w_g1 : str := [103; 49]%N.
 Definition w_u2 : str := [117; 50]%N.
 
-(* after AddGroup g1:  T0 = AddUser u2 g1   T1 = DelGroup g1 ; LookupUser u2
-   schedule: T0 finds g1 (grpMu), T1 deletes g1, T1 looks u2 up (unknown), T0 inserts u2 (usrMu).
-   AddUser succeeded, so it comes before DelGroup; LookupUser did not see u2, so it comes before
-   AddUser; but DelGroup precedes LookupUser in T1: no sequential order gives these three results. *)
+(* after AddGroup g1:  T0 = AddUser u2 g1   T1 = DelGroup g1 ; LookupUser u2, schedule 0 1 1 0.  With the old
+   AddUser (grpMu released between the look-up and the insertion) T1 ran between the two sections and the
+   three results matched no sequential order.  Now DelGroup is blocked until AddUser has finished. *)
 Definition w_s0 : idm := fst (idm_run (idm_init w_root w_root) [AddGroup w_g1]).
 Definition w_progs : list (list iop) := [[AddUser w_u2 w_g1]; [DelGroup w_g1; LookupUser w_u2]].
-Definition w_sched : list nat := [0; 1; 1; 0].
+Definition w_sched : list nat := [0; 1; 1; 0; 1; 1].
 
-Lemma adduser_delgroup_not_linearizable :
-  idm_lin_ok w_s0 w_progs (crun (w_s0, mk_threads w_progs) w_sched) = false.
-Proof. vm_compute. reflexivity. Qed.
-
-Lemma adduser_delgroup_outcome :
+Lemma adduser_delgroup_now_linearizable :
+  idm_lin_ok w_s0 w_progs (crun (w_s0, mk_threads w_progs) w_sched) = true /\
   outs (crun (w_s0, mk_threads w_progs) w_sched)
-  = [[RUser w_u2 1001 1001 false]; [RNil; RErr (UnknownUser w_u2)]].
-Proof. vm_compute. reflexivity. Qed.
-
-(* the checker is not trivially false *)
-Lemma idm_lin_ok_sequential :
-  idm_lin_ok w_s0 w_progs (crun (w_s0, mk_threads w_progs) [0; 0; 1; 1]) = true /\
-  idm_lin_ok w_s0 w_progs (crun (w_s0, mk_threads w_progs) [1; 0; 1; 0]) = true.
+  = [[RUser w_u2 1001 1001 false]; [RNil; RUser w_u2 1001 1001 false]].
 Proof. vm_compute. split; reflexivity. Qed.
+
+(* ---- linearizability ----------------------------------------------------------------------------------------------------- *)
+(* the log of completed calls: thread, call, result - in the order of completion *)
+Definition lentry := (nat * iop * ires)%type.
+Definition lth (e : lentry) : nat := fst (fst e).
+Definition lop (e : lentry) : iop := snd (fst e).
+Definition lres (e : lentry) : ires := snd e.
+
+(* the call that the next section of thread t completes (None: the section is the first one of an AddUser
+   whose group exists, or the thread has finished) *)
+Definition completing (s : idm) (t : cthread) : option iop :=
+  match t_pend t with
+  | PAddUser n gn _ => Some (AddUser n gn)
+  | PNone =>
+      match t_todo t with
+      | [] => None
+      | AddUser n gn :: _ => match lookup_group s gn with None => Some (AddUser n gn) | Some _ => None end
+      | o :: _ => Some o
+      end
+  end.
+
+Definition cstep_log (st : (idm * list cthread) * list lentry) (i : nat) : (idm * list cthread) * list lentry :=
+  match nth_error (snd (fst st)) i with
+  | None => st
+  | Some t =>
+      if blocked (snd (fst st)) t then st
+      else
+        let (s', t') := thread_step (fst (fst st)) t in
+        ((s', upd_nth (snd (fst st)) i t'),
+         match completing (fst (fst st)) t with
+         | Some o => snd st ++ [(i, o, last (t_out t') RNil)]
+         | None => snd st
+         end)
+  end.
+
+Definition crun_log (st : idm * list cthread) (sched : list nat) : (idm * list cthread) * list lentry :=
+  fold_left cstep_log sched (st, []).
+
+Lemma cstep_log_state st i : fst (cstep_log st i) = cstep (fst st) i.
+Proof.
+  unfold cstep_log, cstep. destruct (nth_error (snd (fst st)) i) as [t|]; [|reflexivity].
+  destruct (blocked (snd (fst st)) t); [reflexivity|].
+  destruct (thread_step (fst (fst st)) t) as [s' t']. reflexivity.
+Qed.
+
+Lemma crun_log_state sched : forall st, fst (fold_left cstep_log sched st) = crun (fst st) sched.
+Proof.
+  induction sched as [|i s IH]; intros st; cbn [fold_left crun]; [reflexivity|].
+  unfold crun in *. cbn [fold_left]. rewrite IH. rewrite cstep_log_state. reflexivity.
+Qed.
+
+Lemma idm_run_snoc l : forall s0 o,
+  idm_run s0 (l ++ [o]) =
+  (fst (idm_step (fst (idm_run s0 l)) o), snd (idm_run s0 l) ++ [snd (idm_step (fst (idm_run s0 l)) o)]).
+Proof.
+  induction l as [|a l IH]; intros s0 o; cbn [app idm_run].
+  - cbn [fst snd app]. destruct (idm_step s0 o) as [s1 r]. reflexivity.
+  - destruct (idm_step s0 a) as [s1 r] eqn:Ea. rewrite IH. destruct (idm_run s1 l) as [s2 rs]. cbn [fst snd].
+    destruct (idm_step s2 o) as [s3 r3]. reflexivity.
+Qed.
+
+Lemma last_snoc {A} (l : list A) (x d : A) : last (l ++ [x]) d = x.
+Proof. induction l as [|a l IH]; cbn; [reflexivity|]. rewrite IH. destruct (l ++ [x]) eqn:E; [destruct l; discriminate|reflexivity]. Qed.
+
+Lemma in_upd_nth {A} (l : list A) i (x y : A) : In x (upd_nth l i y) -> x = y \/ In x l.
+Proof.
+  revert i; induction l as [|a l IH]; intros [|i]; cbn; try tauto.
+  - intros [H|H]; auto.
+  - intros [H|H]; auto. destruct (IH _ H); auto.
+Qed.
+
+Lemma sec2_groups s n g : groupsByName (fst (add_user_sec2 s n g)) = groupsByName s.
+Proof. unfold add_user_sec2. destruct (alookup str_eqb n (usersByName s)); reflexivity. Qed.
+
+Lemma step_groups s o :
+  match o with AddGroup _ | DelGroup _ => False | _ => True end ->
+  groupsByName (fst (idm_step s o)) = groupsByName s.
+Proof.
+  destruct o; cbn [idm_step]; try tauto; intros _; try reflexivity.
+  all: try (destruct (lookup_group s g); [apply sec2_groups|reflexivity]).
+  all: try (destruct (alookup str_eqb n (usersByName s)); reflexivity).
+Qed.
+
+Definition pends_live (s : idm) (ths : list cthread) : Prop :=
+  forall t n gn g, In t ths -> t_pend t = PAddUser n gn g -> lookup_group s gn = Some g.
+
+Definition LInv (s0 : idm) (st : (idm * list cthread) * list lentry) : Prop :=
+  idm_run s0 (map lop (snd st)) = (fst (fst st), map lres (snd st)) /\ pends_live (fst (fst st)) (snd (fst st)).
+
+Lemma no_holder ths : existsb holds_grp ths = false -> forall t, In t ths -> t_pend t = PNone.
+Proof.
+  intros H t Hin. destruct (t_pend t) eqn:E; [reflexivity|].
+  assert (existsb holds_grp ths = true); [|congruence].
+  apply existsb_exists. exists t. split; [exact Hin|]. unfold holds_grp. rewrite E. reflexivity.
+Qed.
+
+Lemma pends_same_groups s s' ths :
+  groupsByName s' = groupsByName s -> pends_live s ths -> pends_live s' ths.
+Proof. intros E H t n gn g Hin Hp. unfold lookup_group. rewrite E. exact (H t n gn g Hin Hp). Qed.
+
+Lemma pends_upd s ths i t' :
+  pends_live s ths -> (forall n gn g, t_pend t' = PAddUser n gn g -> lookup_group s gn = Some g) ->
+  pends_live s (upd_nth ths i t').
+Proof.
+  intros H Ht t n gn g Hin Hp. destruct (in_upd_nth _ _ _ _ Hin) as [->|Hin']; [eapply Ht; eauto|eapply H; eauto].
+Qed.
+
+Lemma linv_extend s0 s (log : list lentry) i o s' r :
+  idm_run s0 (map lop log) = (s, map lres log) -> idm_step s o = (s', r) ->
+  idm_run s0 (map lop (log ++ [(i, o, r)])) = (s', map lres (log ++ [(i, o, r)])).
+Proof.
+  intros H Hs. rewrite !map_app. cbn [map lop lres fst snd]. rewrite idm_run_snoc. rewrite H. cbn [fst snd].
+  rewrite Hs. reflexivity.
+Qed.
+
+Lemma cstep_log_linv s0 st i : LInv s0 st -> LInv s0 (cstep_log st i).
+Proof.
+  intros [Hrun Hp]. unfold cstep_log.
+  destruct st as [[s ths] log]. cbn [fst snd] in *.
+  destruct (nth_error ths i) as [t|] eqn:En; [|split; assumption].
+  destruct (blocked ths t) eqn:Eb; [split; assumption|].
+  assert (Hin : In t ths) by (eapply nth_error_In; eauto).
+  unfold thread_step, completing.
+  destruct (t_pend t) as [|n gn g] eqn:Ep.
+  - destruct (t_todo t) as [|o rest] eqn:Et; [split; cbn [fst snd]; [exact Hrun|]|].
+    { apply pends_upd; [exact Hp|]. intros n gn g H. rewrite Ep in H. discriminate. }
+    assert (Hgen : forall o', o = o' -> match o' with AddUser _ _ => False | _ => True end ->
+              LInv s0 (let (s', t') := (let (s'0, r) := idm_step s o' in
+                                        (s'0, {| t_todo := rest; t_pend := PNone; t_out := t_out t ++ [r] |})) in
+                       ((s', upd_nth ths i t'), log ++ [(i, o', last (t_out t') RNil)]))).
+    { intros o' -> Hna. destruct (idm_step s o') as [s' r] eqn:Es. cbn [t_out]. rewrite last_snoc.
+      split; cbn [fst snd]; [eapply linv_extend; eauto|].
+      apply pends_upd; [|intros ? ? ? H; discriminate].
+      destruct o' as [n0|n0 g0|n0|n0|n0|i0|n0|i0]; try tauto;
+        try (eapply pends_same_groups; [|exact Hp];
+             change s' with (fst (s', r)); rewrite <- Es; apply step_groups; exact I).
+      + (* AddGroup: nobody is between the sections of an AddUser *)
+        unfold blocked, wants_grp_w in Eb. rewrite Ep, Et in Eb. cbn [andb] in Eb.
+        intros t1 n1 gn1 g1 Hin1 Hp1. rewrite (no_holder _ Eb t1 Hin1) in Hp1. discriminate.
+      + unfold blocked, wants_grp_w in Eb. rewrite Ep, Et in Eb. cbn [andb] in Eb.
+        intros t1 n1 gn1 g1 Hin1 Hp1. rewrite (no_holder _ Eb t1 Hin1) in Hp1. discriminate. }
+    destruct o as [n0|n0 g0|n0|n0|n0|i0|n0|i0]; try (apply Hgen; [reflexivity|exact I]).
+    (* AddUser, first section *)
+    destruct (lookup_group s g0) as [g|] eqn:El.
+    + split; cbn [fst snd]; [exact Hrun|]. apply pends_upd; [exact Hp|].
+      intros n gn g' H. cbn [t_pend] in H. injection H as _ <- <-. exact El.
+    + cbn [t_out]. rewrite last_snoc. split; cbn [fst snd].
+      * eapply linv_extend; eauto. cbn [idm_step]. rewrite El. reflexivity.
+      * apply pends_upd; [exact Hp|intros ? ? ? H; discriminate].
+  - (* AddUser, second section: the group is still there *)
+    pose proof (Hp t n gn g Hin Ep) as Hg.
+    destruct (add_user_sec2 s n g) as [s' r] eqn:Es. cbn [t_out]. rewrite last_snoc.
+    split; cbn [fst snd].
+    + eapply linv_extend; eauto. cbn [idm_step]. rewrite Hg. exact Es.
+    + apply pends_upd; [|intros ? ? ? H; discriminate].
+      eapply pends_same_groups; [|exact Hp]. change s' with (fst (s', r)). rewrite <- Es. apply sec2_groups.
+Qed.
+
+(* MAIN: for any number of threads, any programs, any schedule, from any state: the calls, in the order in
+   which they completed, executed one after the other from the same state, give the same final state and the
+   same results.  (Program order and real-time order are respected by construction: a call completes after
+   it starts, and a thread completes its calls in program order.) *)
+Theorem crun_linearizable s0 progs sched :
+  let st := crun_log (s0, mk_threads progs) sched in
+  fst st = crun (s0, mk_threads progs) sched /\
+  idm_run s0 (map lop (snd st)) = (fst (fst st), map lres (snd st)).
+Proof.
+  cbn zeta. split; [apply crun_log_state|].
+  assert (H : LInv s0 (crun_log (s0, mk_threads progs) sched)).
+  { unfold crun_log.
+    assert (H0 : LInv s0 ((s0, mk_threads progs), [])).
+    { split; [reflexivity|]. intros t n gn g Hin Hp. unfold mk_threads in Hin. apply in_map_iff in Hin.
+      destruct Hin as [p [<- _]]. discriminate. }
+    revert H0. generalize ((s0, mk_threads progs), @nil lentry). induction sched as [|i s IH]; intros st H0; cbn [fold_left]; [exact H0|].
+    apply IH. apply cstep_log_linv. exact H0. }
+  exact (proj1 H).
+Qed.
